@@ -1016,6 +1016,11 @@ class Emitter:
             bop = op[:-1]
             cc = self.cbin(("bin", bop, lhs, rhs), env, ty)
             return cc.pre + [f"{ln} := {cc.val}"]
+        if (op == "=" and lhs[0] == "path" and len(lhs[1]) == 1 and lhs[1][0] in getattr(env, "aliases", ())
+                and self.is_state(rhs, env)):
+            # `input = &mut self.reader;` where `input` already aliases the state object: a re-borrow of the same
+            # object, no Lean value changes
+            return []
         raise TErr(f"{self.u.name}::{env.fn.name}: assignment target is outside the translated subset")
 
     def cflow(self, e, env):
